@@ -118,11 +118,40 @@ func Run(s Sess) mon.Result {
 	return run(s, nil)
 }
 
+// hooks lets a group steer its members.
+type hooks struct {
+	afterOpen func()                             // called once the member's driver exists and is open (or failed to)
+	levels    map[string]*network.PrivilegeLevel // one level map shared by all members (nil: own map)
+	newMu     *sync.Mutex                        // serialises NewDriver of the members (UpdatePrivileges writes into shared level objects)
+}
+
+func buildLevelMap(s *Sess) map[string]*network.PrivilegeLevel {
+	levels := map[string]*network.PrivilegeLevel{}
+	for _, l := range s.Levels {
+		pl := &network.PrivilegeLevel{Name: l.Name, Pattern: l.Pattern, NotContains: append([]string(nil), l.NotContains...),
+			Escalate: l.Esc, Deescalate: l.Deesc, EscalateAuth: l.Auth}
+		if l.Parent >= 0 {
+			pl.PreviousPriv = s.Levels[l.Parent].Name
+		}
+		if l.Auth {
+			pl.EscalatePrompt = s.AskPattern
+		}
+		levels[l.Name] = pl
+	}
+	return levels
+}
+
 // runGroup: several driver objects in this one process over level sets with identical names and
 // patterns but different trees, one after the other or alive at the same time; each has its own
 // device and is judged against its own tree.
 func runGroup(g Sess) mon.Result {
 	res := make([]mon.Result, len(g.Group))
+	var shared map[string]*network.PrivilegeLevel
+	var newMu sync.Mutex
+	if g.SharedMap {
+		// ONE map of level objects handed to every driver of the group (what platform.AsOptions does)
+		shared = buildLevelMap(&g.Group[0])
+	}
 	if g.GroupMode == "concurrent" {
 		var opened, done sync.WaitGroup
 		opened.Add(len(g.Group))
@@ -139,18 +168,29 @@ func runGroup(g Sess) mon.Result {
 				arrive := func() { once.Do(opened.Done) }
 				defer arrive()
 				// every driver object exists and is open before any of them is used
-				res[i] = run(g.Group[i], func() { arrive(); opened.Wait() })
+				res[i] = run(g.Group[i], &hooks{afterOpen: func() { arrive(); opened.Wait() }, levels: shared, newMu: &newMu})
 			}(i)
 		}
 		done.Wait()
 	} else {
 		for i := range g.Group {
-			res[i] = run(g.Group[i], nil)
+			res[i] = run(g.Group[i], &hooks{levels: shared, newMu: &newMu})
 		}
 	}
 	out := mon.Result{Verdict: mon.Held, Obs: map[string]int64{"shape_groups": 1, "shape_group_drivers": int64(len(g.Group))}}
 	if g.GroupMode == "concurrent" {
 		out.Obs["shape_groups_alive_at_the_same_time"] = 1
+	}
+	if g.SharedMap {
+		out.Obs = map[string]int64{"shared_level_map_groups": 1, "shared_level_map_drivers": int64(len(g.Group))}
+		distinct := map[string]bool{}
+		for _, m := range g.Group {
+			distinct[m.Secondary] = true
+			if m.Secondary == "" {
+				out.Obs["shared_level_map_drivers_without_secret"]++
+			}
+		}
+		out.Obs["shared_level_map_distinct_secrets"] = int64(len(distinct))
 	}
 	tags := map[string]bool{"group-mode=" + g.GroupMode: true, "group-shapes=" + g.Shape: true}
 	for i, r := range res {
@@ -178,7 +218,10 @@ func runGroup(g Sess) mon.Result {
 	return out
 }
 
-func run(s Sess, afterOpen func()) mon.Result {
+func run(s Sess, h *hooks) mon.Result {
+	if h == nil {
+		h = &hooks{}
+	}
 	t0 := time.Now()
 	n := len(s.Levels)
 	idx := map[string]int{}
@@ -198,6 +241,13 @@ func run(s Sess, afterOpen func()) mon.Result {
 	dev := &devsim.CLI{Prompts: prompts, Mode: s.Levels[s.Start].Name, NL: s.NL, HoldPromptSpace: s.HoldSpace}
 	nl := s.NL
 	confirmPending := false
+	// mode-change chatter: a line printed before the new prompt
+	chatter := func(c string) []devsim.Token {
+		if c == "" {
+			return nil
+		}
+		return []devsim.Token{devsim.T(c + nl)}
+	}
 	// failed-hop family: when armed, the device executes the transition completed by exactly this line
 	// (the mode changes) but keeps its reaction (newline + new prompt) back until the harness releases it
 	var holdArmed *rec
@@ -227,15 +277,15 @@ func run(s Sess, afterOpen func()) mon.Result {
 			if l.Asks {
 				return devsim.Reply{Ask: &devsim.Ask{Prompt: s.AskPrompt, Then: func(ans string) devsim.Reply {
 					if ans == s.Secondary {
-						return maybeHold(mode, "hidden", ans, devsim.Reply{NewMode: l.Name})
+						return maybeHold(mode, "hidden", ans, devsim.Reply{NewMode: l.Name, Out: chatter(l.ChatIn)})
 					}
 					return devsim.Reply{Out: []devsim.Token{devsim.T(deniedLine + nl)}}
 				}}}
 			}
-			return maybeHold(mode, "cmd", line, devsim.Reply{NewMode: l.Name})
+			return maybeHold(mode, "cmd", line, devsim.Reply{NewMode: l.Name, Out: chatter(l.ChatIn)})
 		}
 		if p := s.Levels[cur].Parent; p >= 0 && line == s.Levels[cur].Deesc {
-			return maybeHold(mode, "cmd", line, devsim.Reply{NewMode: s.Levels[p].Name})
+			return maybeHold(mode, "cmd", line, devsim.Reply{NewMode: s.Levels[p].Name, Out: chatter(s.Levels[cur].ChatOut)})
 		}
 		if p, ok := payload[line]; ok {
 			var o []devsim.Token
@@ -264,17 +314,9 @@ func run(s Sess, afterOpen func()) mon.Result {
 		}
 	}
 
-	levels := map[string]*network.PrivilegeLevel{}
-	for _, l := range s.Levels {
-		pl := &network.PrivilegeLevel{Name: l.Name, Pattern: l.Pattern, NotContains: append([]string(nil), l.NotContains...),
-			Escalate: l.Esc, Deescalate: l.Deesc, EscalateAuth: l.Auth}
-		if l.Parent >= 0 {
-			pl.PreviousPriv = s.Levels[l.Parent].Name
-		}
-		if l.Auth {
-			pl.EscalatePrompt = s.AskPattern
-		}
-		levels[l.Name] = pl
+	levels := h.levels
+	if levels == nil {
+		levels = buildLevelMap(&s)
 	}
 	opts := []util.Option{
 		options.WithCustomTransport(conn),
@@ -286,15 +328,27 @@ func run(s Sess, afterOpen func()) mon.Result {
 		options.WithPrivilegeLevels(levels),
 		options.WithDefaultDesiredPriv(s.Levels[s.Default].Name),
 	}
-	if s.Secondary != "" {
+	if s.Secondary != "" && !s.SecretViaField {
 		opts = append(opts, options.WithAuthSecondary(s.Secondary))
 	}
+	if len(s.FailedWhen) > 0 {
+		opts = append(opts, options.WithFailedWhenContains(s.FailedWhen))
+	}
+	if h.newMu != nil {
+		h.newMu.Lock()
+	}
 	nd, err := network.NewDriver("dev", opts...)
+	if err == nil && s.SecretViaField {
+		nd.AuthSecondary = s.Secondary // the secret stated through the exported field, no UpdatePrivileges
+	}
+	if h.newMu != nil {
+		h.newMu.Unlock()
+	}
 	if err == nil {
 		err = nd.Open()
 	}
-	if afterOpen != nil {
-		afterOpen()
+	if h.afterOpen != nil {
+		h.afterOpen()
 	}
 	if err != nil {
 		return mon.Result{Verdict: mon.Violated, Key: "c04/open-failed", Detail: err.Error()}
@@ -702,6 +756,37 @@ func run(s Sess, afterOpen func()) mon.Result {
 				}
 			}
 		}
+		// hops on which the device printed chatter containing a member of the driver's failed-when list
+		if len(s.FailedWhen) > 0 {
+			for _, l := range up {
+				if s.Levels[l].ChatOut != "" {
+					obs["hops_with_failed_when_chatter"]++
+					obs["hops_with_failed_when_chatter_deescalate"]++
+					nontrivial = true
+				}
+			}
+			for _, l := range down {
+				if s.Levels[l].ChatIn != "" {
+					obs["hops_with_failed_when_chatter"]++
+					switch {
+					case s.Levels[l].Asks:
+						obs["hops_with_failed_when_chatter_escalate_with_secret"]++
+					case s.Levels[l].Auth:
+						obs["hops_with_failed_when_chatter_escalate_auth_not_asked"]++
+					default:
+						obs["hops_with_failed_when_chatter_escalate_plain"]++
+					}
+					nontrivial = true
+				}
+			}
+		}
+		if h.levels != nil && asked > 0 {
+			obs["secrets_sent_by_drivers_sharing_one_level_map"] += int64(asked)
+			nontrivial = true
+		}
+		if s.SecretViaField && asked > 0 {
+			obs["secrets_sent_with_secret_stated_through_field"] += int64(asked)
+		}
 		// change-window observations
 		if isCommand && len(oo) > 0 {
 			obs["command_calls_carrying_a_level_option"]++
@@ -746,6 +831,10 @@ func run(s Sess, afterOpen func()) mon.Result {
 			return mon.Result{Verdict: mon.Violated, Key: "c04/harness:tour-incomplete", Detail: fmt.Sprintf("%d of %d ordered pairs observed", len(pairs), n*n)}
 		}
 		obs["trees_with_all_pairs"] = 1
+	}
+	if s.Kind == "chatter" {
+		obs["chatter_sessions"]++
+		tag("failed-when=%s", s.FailedWhen[0])
 	}
 	if s.Kind == "flavours" {
 		obs["flavour_sessions"]++
@@ -841,7 +930,10 @@ func init() {
 			"(the level's own de-escalate, a child's escalate on a non-asking edge), so the device legitimately changes mode behind the cached level; the reference tracks the true mode through payload lines; " +
 			"the following call targets the level the driver still believes in with probability 0.6. Same-labels-different-shape family (30 quick / 300 thorough): 2-3 driver objects in ONE process over level sets with identical names and patterns but different trees " +
 			"(re-parented leaf, swapped labels, chain vs star), each with its own device, run one after the other or alive at the same time, each judged against its own tree; and (20 / 200) single sessions that re-parent a level " +
-			"(device and driver level definition) and call UpdatePrivileges mid-session. Change-window family (40 / 400): trees with the sibling levels configuration / configuration-exclusive / configuration-private (own prompts or one shared prompt); one option list " +
+			"(device and driver level definition) and call UpdatePrivileges mid-session. Shared-level-map family (30 / 300): 2-3 drivers alive at the same time built from ONE map of *PrivilegeLevel objects, each with its own secondary secret which its device checks " +
+			"(one member possibly without a secret on a device that never asks; secrets possibly stated through the exported field Driver.AuthSecondary after NewDriver; a quarter are single drivers with the secret stated through the field). " +
+			"Chatter family (40 / 400): the device prints, on mode-changing commands of every edge kind, a line containing a member of the driver's failed-when list (stock cisco/junos/sros-like lists and a custom one). " +
+			"Change-window family (40 / 400): trees with the sibling levels configuration / configuration-exclusive / configuration-private (own prompts or one shared prompt); one option list " +
 			"{WithPrivilegeLevel(L)} shared between config and command calls: SendCommand(s) carrying the level option (known or unknown level; it has no meaning for them, they must run at the default desired level) as first call " +
 			"of a session and right after SendConfig(s)/AcquirePriv/SendInteractive, and SendConfig(s) without a level back to back after calls at another flavour (must go to \"configuration\"). " +
 			"Flavour family (40 / 400): trees with 2-3 sibling leaf levels that share one prompt and pattern (different escalate commands, each de-escalating to the common parent) and sequences " +
